@@ -106,8 +106,14 @@ func P(site int32) {
 		var ms runtime.MemStats
 		runtime.ReadMemStats(&ms)
 		if ms.HeapAlloc > HeapLimit {
-			t.memHit = true
-			t.Budget = t.Steps - 1 // attribute the hot loop, then abort
+			// garbage from earlier operations must not count: collect, then look at
+			// what is really live (this keeps the verdict a function of the operation)
+			runtime.GC()
+			runtime.ReadMemStats(&ms)
+			if ms.HeapAlloc > HeapLimit {
+				t.memHit = true
+				t.Budget = t.Steps - 1 // attribute the hot loop, then abort
+			}
 		}
 	}
 	if t.Budget > 0 && t.Steps > t.Budget {
